@@ -40,7 +40,7 @@ CONFIGS = st.one_of(
         optional={
             "retained_set_optimization_threshold": st.sampled_from((0, 1, 2, 3, 5, 10)),
             "attractor_candidates_limit": st.sampled_from((1, 2, 3, 5, 10)),
-            "minimum_simulation_budget": st.sampled_from((0, 1, 2, 10)),
+            "minimum_simulation_budget": st.sampled_from((0, 1, 2, 10, 5000, 200000)),
             "nfvs_size_threshold": st.sampled_from((0, 1, 2, 3)),
             "max_motifs_per_node": st.sampled_from((1, 2, 3, 5, 10)),
         },
